@@ -117,6 +117,8 @@ pub fn check_model(spec: &LmSpec, l: &mut Local) {
         Sense::Max => "max",
         Sense::Satisfy => "satisfy",
     };
+    // prices are in objective units: the interior-point accuracy is relative to the objective's scale
+    let oscale = spec.obj.iter().fold(1.0f64, |a, c| a.max(c.abs()));
     for (r, row) in spec.rows.iter().enumerate() {
         let rel = crate::lm::rel_str(row.rel);
         let reported: Vec<f64> = sol.shadow.iter().filter(|(n, _)| n == &row.name).map(|(_, v)| *v).collect();
@@ -129,8 +131,8 @@ pub fn check_model(spec: &LmSpec, l: &mut Local) {
             continue;
         }
         l.count(if prices[r].is_zero() { "prices_checked:inactive" } else { "prices_checked:active" });
-        if (reported[0] - want).abs() > TOL * want.abs().max(1.0) {
-            let kind = if prices[r].is_zero() { "inactive-row-nonzero" } else if (reported[0] + want).abs() <= TOL * want.abs().max(1.0) { "wrong-sign" } else { "wrong-value" };
+        if (reported[0] - want).abs() > TOL * want.abs().max(oscale) {
+            let kind = if prices[r].is_zero() { "inactive-row-nonzero" } else if (reported[0] + want).abs() <= TOL * want.abs().max(oscale) { "wrong-sign" } else { "wrong-value" };
             l.violation(format!("{kind}:{sense}:{rel}"), format!("row {} ({rel}, {sense}): reported shadow price {}, sensitivity of the optimum is {}", row.name, reported[0], want), case(&Some(sol.clone())));
         }
     }
@@ -189,7 +191,7 @@ pub fn check_model(spec: &LmSpec, l: &mut Local) {
                         let want = to_f64(&prices[r]);
                         let reported: Vec<f64> = csol.shadow.iter().filter(|(n, _)| n == &row.name).map(|(_, v)| *v).collect();
                         l.count("compiled_door:prices_checked");
-                        let bad = reported.len() != 1 || (reported[0] - want).abs() > TOL * want.abs().max(1.0);
+                        let bad = reported.len() != 1 || (reported[0] - want).abs() > TOL * want.abs().max(oscale);
                         if bad {
                             let cause = if tightened_and_tight { "derived-bound-tight-at-the-optimum" } else { "other" };
                             l.violation(format!("compiled:price-differs-from-sensitivity:{cause}"), format!("row {}: the compiled model reports {:?}, the sensitivity of the written model is {want}", row.name, reported), json!({"source": text, "compiled": clm.to_string(), "expected_prices": prices.iter().map(to_f64).collect::<Vec<_>>(), "reported": csol.shadow}));
@@ -229,6 +231,20 @@ fn families(quick: bool) -> Vec<LmFamily> {
         offsets: vec![0.0],
         named: true,
     });
+    // objective coefficients far from 1 (thousands, and below 2^-9): prices scale with the objective
+    v.push(LmFamily {
+        name: "D4-objective-scales-n2m2",
+        n: 2,
+        m: 2,
+        doms: vec![Dom::NonNeg],
+        coefs: vec![-1.0, 1.0, 2.0],
+        rhss: vec![-1.0, 3.0],
+        rels: vec![Rel::Le, Rel::Ge],
+        objs: vec![-3000.0, 1024.0, 2048.0, 0.0009765625, -0.00146484375],
+        senses: vec![Sense::Min, Sense::Max],
+        offsets: vec![0.0],
+        named: true,
+    });
     if !quick {
         v.push(LmFamily {
             name: "D2-n3m3",
@@ -264,9 +280,9 @@ pub fn run(mut run: Run) -> ! {
     crate::core::silence_panics();
     run.isolate = true;
     run.case_timeout_s = 10.0;
-    run.rule = "every member of finite continuous LinearModel families with named rows (and every subset of rows left unnamed) is filtered exactly to unique non-degenerate optima (exactly n linearly independent tight constraints, all multipliers non-zero) whose rhs perturbations of +-1/1024 stay in the basis-stability range; each such model is solved with solve_real_lp_problem_clarabel and every reported shadow price compared with the exact sensitivity; the builder door (Clarabel solver object, DualValues::shadow_price(name)) must report bit-identical prices and none for unknown names; the compiled door (the model written as source text, compiled with its derived bounds published, solved) must report the sensitivities of the written model; distinct = canonical model text".into();
+    run.rule = "every member of finite continuous LinearModel families with named rows (objective coefficients of order 1, of order 1e3 and of order 1e-3; and every subset of rows left unnamed) is filtered exactly to unique non-degenerate optima (exactly n linearly independent tight constraints, all multipliers non-zero) whose rhs perturbations of +-1/1024 stay in the basis-stability range; each such model is solved with solve_real_lp_problem_clarabel and every reported shadow price compared with the exact sensitivity; the builder door (Clarabel solver object, DualValues::shadow_price(name)) must report bit-identical prices and none for unknown names; the compiled door (the model written as source text, compiled with its derived bounds published, solved) must report the sensitivities of the written model; distinct = canonical model text".into();
     run.assume("exact multipliers from the n x n tight-constraint system over BigRational, self-checked on every model against exact two-sided finite differences of the optimal value");
-    run.assume("tolerance 1e-5 (interior-point accuracy); models on which Clarabel gives no answer or a wrong optimum are counted and left to C05");
+    run.assume("tolerance 1e-5 x max(1, |price|, largest objective coefficient) (interior-point accuracy, relative to the objective's scale); models on which Clarabel gives no answer or a wrong optimum are counted and left to C05");
     for fam in families(run.quick()) {
         let f2 = fam.clone();
         let masks = if fam.name.starts_with("D1") { 1u64 << fam.m } else { 1 };
